@@ -207,6 +207,7 @@ func (s *Service) samples(ctx *gin.Context) *api.Result {
 				continue
 			}
 
+			result.Total += s.LastScrapeStatistics.Total
 			result.ScrapedTotal += s.LastScrapeStatistics.ScrapedTotal
 			if withMetricsDetail == "true" {
 				for k, v := range s.LastScrapeStatistics.MetricsTotal {
